@@ -1,6 +1,7 @@
 """emitraw.py — raw (grammar) cases and implementation traces -> Gallina (RunRaw.rcase)."""
 import re
 
+import dotparse
 import emit
 import genraw
 
@@ -119,9 +120,11 @@ def ientry(s):
         if t == "optional":
             opt = True
         elif t.startswith("name = "):
-            name = int(t[9:-1]) if re.match(r'name = "n\d+"$', t) else 999
+            nm = t[len('name = "'):-1]
+            name = dotparse.NAMES.get(nm, int(nm[1:]) if re.match(r'n\d+$', nm) else 999)
         elif t.startswith("group = "):
-            group = int(t[10:-1]) if re.match(r'group = "g\d+"$', t) else 999
+            gr = t[len('group = "'):-1]
+            group = dotparse.GROUPS.get(gr, int(gr[1:]) if re.match(r'g\d+$', gr) else 999)
     return f"mkIE {type_code(ty)} {name} {group} {emit.boolc(opt)}"
 
 
